@@ -59,6 +59,8 @@ def walk(stmts, out):
             if isinstance(s.value, ast.Constant) and isinstance(s.value.value, str):
                 continue        # comment string
             out.append(("expr", "", exp(s.value)))
+        elif isinstance(s, (ast.Import, ast.ImportFrom)):
+            continue
         else:
             raise Untranslatable(f"{FUNC}: statement kind {type(s).__name__}: {ast.unparse(s)[:60]}")
 
@@ -91,6 +93,39 @@ Open Scope Z_scope.
 """
 
 
+def observers_entries(repo):
+    """check_format_input_observers (input_checks.py): how a mixed observer list becomes the ordered sensor list"""
+    tree = ast.parse(open(os.path.join(repo, "magpylib/_src/input_checks.py")).read())
+    fns = [n for n in tree.body if isinstance(n, ast.FunctionDef) and n.name == "check_format_input_observers"]
+    if len(fns) != 1 or [x.arg for x in fns[0].args.args] != ["inp", "pixel_agg"]:
+        raise Untranslatable("check_format_input_observers: definition / signature")
+    out = []
+    walk(strip_doc(fns[0].body), out)
+    return out
+
+
+def reduce_entries(repo):
+    """_getBH_level2: the block that sums the rows of each Collection (source-row bookkeeping)"""
+    tree = ast.parse(open(os.path.join(repo, FILE)).read())
+    fns = [n for n in tree.body if isinstance(n, ast.FunctionDef) and n.name == "_getBH_level2"]
+    if len(fns) != 1:
+        raise Untranslatable("_getBH_level2 not found")
+    blocks = [n for n in ast.walk(fns[0]) if isinstance(n, ast.If)
+              and ast.unparse(n.test) == "num_of_src_list > num_of_sources"]
+    if len(blocks) != 1:
+        raise Untranslatable("_getBH_level2: the collection-reduction block was not found")
+    out = []
+    walk([blocks[0]], out)
+    # B must not be assigned between this block and the sensor loop other than inside it
+    return out
+
+
+def table(name, fname, es):
+    rows = [f"  ({q(fname)}, {q(k)}, {q(t)},\n     {e})" for (k, t, e) in es]
+    return f"Definition {name} : list (string * string * string * pyexp) := [\n" + ";\n".join(rows) + "].\n"
+
+
 def generate(repo):
-    rows = [f"  ({q(FUNC)}, {q(k)}, {q(t)},\n     {e})" for (k, t, e) in entries(repo)]
-    return HEADER + "Definition dict_arith : list (string * string * string * pyexp) := [\n" + ";\n".join(rows) + "].\n"
+    return (HEADER + table("dict_arith", FUNC, entries(repo)) + "\n"
+            + table("observers_arith", "check_format_input_observers", observers_entries(repo)) + "\n"
+            + table("reduce_arith", "_getBH_level2", reduce_entries(repo)))
